@@ -1460,6 +1460,20 @@ def discr_variants(term, vals):
     return t[1], names
 
 
+def guard_variants(body, s, vals, term):
+    """like discr_variants for the guard (s, vals, term) of `body`, with the `otherwise` edge resolved to the variants the
+    switch does not name (`if let Some(x) = o {..}` tests one variant; its else edge is `None`)"""
+    dv = discr_variants(term, vals)
+    if dv is None or "otherwise" not in dv[1]:
+        return dv
+    tt = body.blocks[s]["t"]
+    table = dict(term[3])
+    explicit = {v for v, tg in tt["targets"]}
+    rest = [name for v, name in term[3] if v not in explicit]
+    names = [n for n in dv[1] if n != "otherwise"] + rest
+    return dv[0], names
+
+
 # ---------------------------------------------------------------- result / exit helpers
 
 def result_edges(body, call_block):
